@@ -1,0 +1,22 @@
+//go:build verif
+
+package core
+
+// CycleDetectorForVerif is ONE cycle detector that is kept across several checks of a graph that is still
+// growing, the way BuildState keeps one (state.progress.cycleDetector) and re-runs Check() on it.
+type CycleDetectorForVerif struct {
+	detector cycleDetector
+}
+
+// NewCycleDetectorForVerif creates the detector for graph exactly as NewBuildState does.
+func NewCycleDetectorForVerif(graph *BuildGraph) *CycleDetectorForVerif {
+	return &CycleDetectorForVerif{detector: cycleDetector{graph: graph}}
+}
+
+// Check runs one more check on the same detector and returns the reported cycle (nil when none is found).
+func (c *CycleDetectorForVerif) Check() []*BuildTarget {
+	if err := c.detector.Check(); err != nil {
+		return err.Cycle
+	}
+	return nil
+}
